@@ -228,6 +228,25 @@ def paren_variants(tokens):
         yield tokens[:k] + ["(", "(", t, ")", ")"] + tokens[k + 1:]
 
 
+OPENERS = {"(", "[", ",", ";", "=", "+", "-", "*", "/", "%", "==", "!=",
+           "<>", "<", "<=", ">", ">=", "=>", "<<", "<<<", "and", "or",
+           "not", "then", "else", "do", "in", "return", "if", "elif",
+           "+=", "-=", "*=", "/=", "%="}
+
+
+def signed_paren_variants(tokens):
+    """wrap a signed numeric literal (unary minus + literal) as a whole in
+    redundant parentheses: `-1.5 in x` -> `(-1.5) in x`"""
+    for k, t in enumerate(tokens):
+        num = is_int_token(t) or (t.replace(".", "", 1).isdigit()
+                                  and "." in t)
+        if not num or k == 0 or tokens[k - 1] != "-":
+            continue
+        if k - 1 > 0 and tokens[k - 2] not in OPENERS:
+            continue          # binary minus
+        yield tokens[:k - 1] + ["(", "-", t, ")"] + tokens[k + 1:]
+
+
 def semicolon_variants(tokens):
     """optional trailing semicolons: at the end of the script and before the
     end of a block"""
